@@ -8,6 +8,7 @@ import (
 	"math/rand"
 	"net/url"
 	"regexp"
+	"servitor/jtp"
 	"servitor/object"
 	"servitor/pub"
 	"servitor/splicer"
@@ -32,6 +33,10 @@ func tagOf(t pub.Tangible) any {
 	if f, ok := t.(*fakeItem); ok {
 		return f.label
 	}
+	if p, ok := t.(*pub.Post); ok {
+		/* a served note carries its label as its name */
+		return stripSGR(p.Name())
+	}
 	if _, ok := t.(*pub.Failure); ok {
 		if strings.Contains(stripSGR(t.Name()), "refusing to read") {
 			return map[string]any{"fail": "refuse"}
@@ -39,6 +44,46 @@ func tagOf(t pub.Tangible) any {
 		return map[string]any{"fail": "error"}
 	}
 	return map[string]any{"fail": "?"}
+}
+
+/* the sources of a splice op as OrderedCollections of inline notes on the simulator's hosts */
+func splicerOverNetwork(op Op) pub.Container {
+	sm := startSimulator()
+	routes := []any{}
+	inputs := []string{}
+	for k, src := range L(op, "sources") {
+		notes := []any{}
+		for _, it := range src.([]any) {
+			p := it.([]any)
+			note := map[string]any{"type": "Note", "name": p[0].(string), "content": "x", "mediaType": "text/plain"}
+			if p[1] != nil {
+				nsec := 0
+				if len(p) > 2 {
+					nsec = I(Op{"v": p[2]}, "v")
+				}
+				ts := time.Unix(spliceBase+int64(I(Op{"v": p[1]}, "v")), int64(nsec)).UTC()
+				if len(p) > 3 {
+					ts = ts.In(time.FixedZone("z", 60*I(Op{"v": p[3]}, "v")))
+				}
+				note["published"] = ts.Format(time.RFC3339Nano)
+			}
+			notes = append(notes, note)
+		}
+		h := k % simHosts
+		doc, _ := json.Marshal(map[string]any{"type": "OrderedCollection", "id": fmt.Sprintf("https://{H%d}/{OP}/src%d", h, k), "orderedItems": notes})
+		routes = append(routes, map[string]any{"h": h, "path": fmt.Sprintf("/{OP}/src%d", k), "resp": "HTTP/1.0 200 OK\r\nContent-Type: application/activity+json\r\n\r\n" + string(doc), "fault": ""})
+		inputs = append(inputs, fmt.Sprintf("https://{H%d}/{OP}/src%d", h, k))
+	}
+	op["routes"] = routes
+	_, opid := installWorld(op)
+	jtp.VerifCachePurge()
+	for k := range inputs {
+		inputs[k] = substitute(inputs[k], sm.hosts, opid)
+	}
+	sp := splicer.NewSplicer(inputs)
+	sm.takeLog()
+	delete(op, "routes")
+	return sp
 }
 
 /* a synthetic pub.Container over a fixed item list, delivering exactly what is asked */
@@ -215,6 +260,11 @@ func init() {
 		}
 		s := splicer.VerifNew(pages)
 		var cont pub.Container = s
+		if I(op, "net") == 1 {
+			/* the same sources as collections served over the simulator, the feed built by the
+			   program's own constructor (NewSplicer: one fetch per configured source) */
+			cont = splicerOverNetwork(op)
+		}
 		/* every continuation the feed has handed out so far (0 = the feed as built): an "old"
 		   step asks one of them again after newer ones exist */
 		conts := []pub.Container{cont}
@@ -504,6 +554,51 @@ func genC10(r *rand.Rand, n int, emit func(Op)) {
 /* seconds of the zero time.Time (year 1) relative to spliceBase */
 const spliceZero = -62135596800 - 1577836800
 
+/*
+C11net: feeds built by NewSplicer over served collections where one source is busy (35..70 items,
+all newer than the others') and listed before, between or after quiet ones (0..8 items): paged the
+way the interface does (6, then 5 at a time), in one request past the busy source, and again
+*/
+func init() {
+	groups["C11net"] = group{gen: func(r *rand.Rand, n int, emit func(Op)) {
+		for i := 0; i < n; i++ {
+			ns := 2 + r.Intn(3)
+			busy := r.Intn(ns)
+			sources := []any{}
+			total := 0
+			for s := 0; s < ns; s++ {
+				k := r.Intn(9)
+				base := 100
+				if s == busy {
+					k = 35 + r.Intn(36)
+					base = 100000
+				}
+				items := []any{}
+				t := base + r.Intn(50)
+				for j := 0; j < k; j++ {
+					t -= r.Intn(4)
+					items = append(items, []any{fmt.Sprintf("s%d-%d", s, j), t})
+				}
+				total += k
+				sources = append(sources, items)
+			}
+			script := []any{}
+			switch r.Intn(3) {
+			case 0:
+				script = append(script, []any{"h", 6, 0})
+				for j := 0; j < total/5+2; j++ {
+					script = append(script, []any{"h", 5, 0})
+				}
+			case 1:
+				script = append(script, []any{"h", 33 + r.Intn(40), 0}, []any{"h", total, 0})
+			default:
+				script = append(script, []any{"h", 10 + r.Intn(30), r.Intn(5)}, []any{"again", 40, 0}, []any{"h", 7, 0}, []any{"old", 50, 0, 0}, []any{"h", total, 0})
+			}
+			emit(Op{"op": "splice", "sources": sources, "script": script, "nilempty": 0, "paged": 0, "delay_us": 0, "net": 1})
+		}
+	}}
+}
+
 func genC11(r *rand.Rand, n int, emit func(Op)) {
 	for i := 0; i < n; i++ {
 		ns := r.Intn(5)
@@ -608,5 +703,10 @@ func genC11(r *rand.Rand, n int, emit func(Op)) {
 			script = append(script, []any{kind, q, st})
 		}
 		emit(Op{"op": "splice", "sources": sources, "script": script, "nilempty": r.Intn(2), "paged": r.Intn(2), "delay_us": pick(r, []int{0, 0, 300, 1000})})
+		if class != 3 && len(dups) == 0 && ns > 0 && r.Intn(4) == 0 {
+			/* the same feed once more, its sources served as collections and the feed built by
+			   NewSplicer (timestamps a document can carry: not the far past and future class) */
+			emit(Op{"op": "splice", "sources": sources, "script": script, "nilempty": 0, "paged": 0, "delay_us": 0, "net": 1})
+		}
 	}
 }
